@@ -190,6 +190,19 @@ CHECKS["C15"] = dict(
     technique="TLA+ bijection-based similarity oracle + transcribed greedy matching checked by TLC; TLC-generated mutation pairs "
               "replayed on the code and validated by TLC (trace validation)")
 
+CHECKS["C16"] = dict(
+    level="model_checking",
+    text="Shapefile.tla is the queue model of the encoder/decoder pair (Create . Encode* . CloseW . OpenR . DecodeRow*) with the "
+         "normalisation Stored(r) (LineString -> one-part MultiLineString, rings closed, *Bounds -> five-vertex rectangle, "
+         "bit-identical coordinates, integer/string/float attribute rules); TLC checks FIFO order and count on the bounded model and "
+         "emits every complete behaviour; each is executed against real .shp/.shx/.dbf files in a fresh temporary directory through "
+         "both API pairs (struct-based with differently cased decode fields, field-based) and ShapefileTrace.tla follows the model "
+         "state, requiring every DecodeRow answer to be the Stored form of the record at the read position.",
+    design_ref="DESIGN.md section 5, C16",
+    note="Trusted: TLC, go-shp as the file layer, the harness's id mapping of coordinates/strings/floats. Domain: six finite float64 "
+         "bit patterns, proper boxes, strings without leading/trailing spaces, values within field widths, no nil geometries.",
+    technique="TLA+ queue model checked by TLC; TLC behaviours executed on real shapefiles; recorded calls validated step by step by TLC")
+
 NOT_YET = "check not built yet in this round of work; will be claimed when its specification, replay and trace validation exist"
 NA = {
     "C09": "oracle is proj4js 2.3.12 and closed-form geodesy (real-valued transcendental functions, a JavaScript program that "
